@@ -53,3 +53,13 @@ package entity
 //@   modifies nothing
 //@   ensures result != "" && result != UnsetId
 //@   props C04 C07
+
+// GraphQL scalar decoding must never panic, whatever value gqlgen hands over (C17).
+//@ func (*Id).UnmarshalGQL
+//@   props C17
+//@   nopanic
+//@   requires i != nil
+//@ func (*CombinedId).UnmarshalGQL
+//@   props C17
+//@   nopanic
+//@   requires ci != nil
